@@ -355,7 +355,7 @@ func (y *c20RedSys) Check(s *c06State) *engine.Violation {
 			gen(append(prefix, k), n)
 		}
 	}
-	for n := 1; n <= 3; n++ {
+	for n := 0; n <= 3; n++ { // n = 0: no deposit message at all (only together with the other message)
 		gen(nil, n)
 	}
 	mk := func(kind string) sdk.Msg {
@@ -378,6 +378,9 @@ func (y *c20RedSys) Check(s *c06State) *engine.Violation {
 	other := banktypes.NewMsgSend(world.Addr("alice"), world.Addr("bob"), sdk.NewCoins(sdk.NewInt64Coin(c06Denom, 1)))
 	for _, l := range lists {
 		for _, withOther := range []bool{false, true} {
+			if len(l) == 0 && !withOther {
+				continue
+			}
 			var msgs []sdk.Msg
 			for _, k := range l {
 				msgs = append(msgs, mk(k))
@@ -441,6 +444,11 @@ func (y *c20RedSys) Check(s *c06State) *engine.Violation {
 						return tagged(viol("all-stale-deposit-tx-is-rejected-at-check", "%s: expected ErrRedundantTx, got err=%v", name, err), "probe", name)
 					}
 					y.redund.Add(1)
+				} else if pk == 0 {
+					// nothing in it is a deposit finalization: the redundancy filter has no business with it
+					if errors.Is(err, opchildtypes.ErrRedundantTx) || !called {
+						return tagged(viol("redundancy-rejection-needs-a-stale-deposit", "%s: a transaction without any deposit finalization was rejected as redundant (err=%v)", name, err), "probe", name)
+					}
 				} else if fresh > 0 {
 					if err != nil || !called {
 						return tagged(viol("tx-with-a-fresh-deposit-passes", "%s: err=%v next-called=%v", name, err, called), "probe", name)
